@@ -65,12 +65,36 @@ T = {
          "reference transitions from the closed form in float64 cross-checked with the DO-260B table; Cython twin seen through /verif/pyxemu.",
          "exhaustive grid enumeration + property-based testing against a reference NL table"),
 }
+COMMON = (" Every run also: alternates, case by case, between the default and a hostile ambient process state (numpy trapping divide/overflow/invalid, "
+          "RuntimeWarning as error, 3-digit decimal context); repeats a quarter of the legs' cases in a child interpreter started with PYTHONOPTIMIZE=1 (python -O); "
+          "re-evaluates earlier cases after later ones; re-runs every stored failing input of the property (replays/).")
+EXTRA = {
+ "volume": "a volume leg (one process decodes 4e4-1.1e6 distinct inputs in a row, comes back to identical inputs and their siblings after 4 100 ... 1 050 000 others, and ends with four concurrent callers)",
+ "first_use": "a first-use leg (a fresh copy of the package per trial whose first calls are made by four threads at once)",
+ "threads": "a concurrency leg (four callers with a 1 us switch interval)",
+ "corpus": "a corpus leg (real recorded frames)",
+}
+import sys
+sys.path.insert(0, HERE)
+from vlib import core
+core.setup_path()
+import importlib
+
+
+def legs_of(pid):
+    mod = importlib.import_module("checks." + pid.lower())
+    return [l.name for l in mod.LEGS]
+
+
 props = [json.loads(l) for l in open("properties.jsonl")]
 checks, na = [], []
 for p in props:
     pid = p["id"]
     if os.path.exists("checks/%s.py" % pid.lower()) and pid in T:
         text, note, tech = T[pid]
+        names = legs_of(pid)
+        extra = [EXTRA[k] for k in ("volume", "first_use", "threads", "corpus") if k in names]
+        text = text + (" Also " + "; ".join(extra) + "." if extra else "") + " Legs: " + ", ".join(names) + "." + COMMON
         checks.append({"property_id": pid, "quick_cmd": "./check %s --tier quick" % pid, "thorough_cmd": "./check %s --tier thorough" % pid,
                        "evidence_file": "evidence/%s.json" % pid, "replay_cmd_template": "./check %s --replay {path}" % pid, "engine": "pbt",
                        "level_claimed": {"category": "exploration", "text": text, "design_ref": "DESIGN.md section 3, %s" % pid},
